@@ -6,7 +6,8 @@ change applied, run the quick check of the property it targets (plus any --also 
 
 usage: sweep_seeded.py [--jobs N] [--also C02,C14] [--keep-note] name [name...] | all
 """
-import sys, os, json, subprocess, re, shutil, hashlib
+import sys, os, json, subprocess, re, shutil, hashlib, threading, time
+GIT_LOCK = threading.Lock()  # 'git worktree add/remove' are not safe to run concurrently
 from concurrent.futures import ThreadPoolExecutor
 HERE = os.path.dirname(os.path.dirname(os.path.abspath(__file__)))
 
@@ -17,9 +18,11 @@ def run(name, also):
     tag = hashlib.md5(name.encode()).hexdigest()[:8]
     wt, out = "/tmp/mut/wt_" + tag, "/tmp/mut/out_" + tag
     os.makedirs("/tmp/mut", exist_ok=True)
-    subprocess.run(["git", "-C", "/repo", "worktree", "remove", "--force", wt], stderr=subprocess.DEVNULL)
     shutil.rmtree(out, ignore_errors=True)
-    subprocess.run(["git", "-C", "/repo", "worktree", "add", "-q", "--detach", wt, "HEAD"], check=True)
+    with GIT_LOCK:
+        subprocess.run(["git", "-C", "/repo", "worktree", "remove", "--force", wt], stderr=subprocess.DEVNULL)
+        subprocess.run(["git", "-C", "/repo", "worktree", "prune"])
+        subprocess.run(["git", "-C", "/repo", "worktree", "add", "-q", "--detach", wt, "HEAD"], check=True)
     res = {}
     try:
         r = subprocess.run(["git", "-C", wt, "apply", os.path.join(d, "patch.diff")])
@@ -54,7 +57,8 @@ def run(name, also):
                                     shutil.copyfile(envf, dst[:-5] + ".env")
                             break
     finally:
-        subprocess.run(["git", "-C", "/repo", "worktree", "remove", "--force", wt])
+        with GIT_LOCK:
+            subprocess.run(["git", "-C", "/repo", "worktree", "remove", "--force", wt])
         shutil.rmtree(out, ignore_errors=True)
     det = [c + " quick" for c, v in res.items() if v["violations"]]
     meta["detected_by"] = det
